@@ -500,13 +500,14 @@ class SymNum:
         return -floor(-self)
 
     def __repr__(self):
+        # cheap on purpose: the library formats values into log messages on every step
         if self.is_const():
             return 'Sym(%s)' % (self.const_value(),)
-        try:
-            s = str(z3.simplify(self.z3()))
-        except Exception:  # pragma: no cover
-            s = '?'
-        return 'Sym(%s)' % (s if len(s) < 200 else s[:200] + '...')
+        return 'Sym(<%d terms>)' % len(self.terms)
+
+    def describe(self):
+        s = str(z3.simplify(self.z3()))
+        return s if len(s) < 400 else s[:400] + '...'
 
     __str__ = __repr__
 
@@ -721,8 +722,7 @@ class SymBool:
         return int(bool(self))
 
     def __repr__(self):
-        s = str(self.z)
-        return 'SymBool(%s)' % (s if len(s) < 200 else s[:200] + '...')
+        return 'SymBool(<term>)'
 
     def __reduce__(self):
         return (_unpickle_bool, (self.z.serialize(),))
